@@ -13,7 +13,7 @@ import ast
 from typing import Callable, Optional
 
 from ..paths import enumerate_paths
-from ..program import AnalysisError, FuncInfo, Program, unparse, short, walk_no_nested
+from ..program import AnalysisError, FuncInfo, Program, unparse, short, walk_no_nested, bool_table, expand_locals, single_defs
 from ..report import Report
 from ..words import cmp_norm
 from .. import statefx
@@ -115,6 +115,45 @@ def guard(rep: Report, prog: Program, rule: str, fi: FuncInfo, name: str, ifs: l
     rep.check(rule, fi.qual, f"fault class: {name}", bool(good), what_bad=what_missing, what_ok=f"guarded at line {good[0].lineno}: `{short(good[0].test, 70)}`" if good else "", loc=fi.loc(good[0]) if good else fi.loc())
 
 
+def position_guard(cp: FuncInfo):
+    """A raise in clean_position that is reached exactly when (X or Y missing) and (lon or lat missing):
+    path conditions of every raising path are and-ed and compared by truth table."""
+    defs = single_defs(cp.node)
+
+    def atom(n):
+        if isinstance(n, ast.Compare) and len(n.ops) == 1 and isinstance(n.ops[0], (ast.In, ast.NotIn)) and isinstance(n.left, ast.Constant) and unparse(n.comparators[0]).endswith(".columns"):
+            return (f"has_{n.left.value}", isinstance(n.ops[0], ast.NotIn))
+        return None
+
+    found = None
+    for p in enumerate_paths(cp.node.body):
+        if p.exit != "raise":
+            continue
+        if any(s[0] == "except" for s in p.steps):
+            continue
+        conds = []
+        for t, taken in p.conds():
+            e = expand_locals(t, cp.node, defs)
+            conds.append(e if taken else ast.UnaryOp(op=ast.Not(), operand=e))
+        if not conds:
+            continue
+        test = conds[0] if len(conds) == 1 else ast.BoolOp(op=ast.And(), values=conds)
+        tb = bool_table(ast.fix_missing_locations(test), atom)
+        if tb is None:
+            continue
+        atoms, table = tb
+        if set(atoms) != {"has_X", "has_Y", "has_lat", "has_lon"}:
+            continue
+        ok = True
+        for asg, val in table.items():
+            d = dict(zip(atoms, asg))
+            want = (not (d["has_X"] and d["has_Y"])) and (not (d["has_lon"] and d["has_lat"]))
+            ok = ok and (val == want)
+        if ok:
+            found = p.exit_node.lineno
+    return found is not None, found
+
+
 def fault_table(prog: Program, rep: Report) -> None:
     rule = "R20.2"
     # (a) missing start / stop / dt
@@ -197,10 +236,8 @@ def fault_table(prog: Program, rep: Report) -> None:
     guard(rep, prog, rule, rl, "missing release file name", find_ifs(rl, lambda t: unparse(t) in ("release_file == ''", "not release_file")), "an empty release file name is not refused")
     # (f) missing position
     cp = prog.role_func("release", "clean_position")
-    inner = find_ifs(cp, lambda t: "'lon' not in df.columns" in unparse(t) and "'lat' not in df.columns" in unparse(t) and isinstance(t, ast.BoolOp) and isinstance(t.op, ast.Or))
-    outer = find_ifs(cp, lambda t: "'X' not in df.columns" in unparse(t) and "'Y' not in df.columns" in unparse(t) and isinstance(t, ast.BoolOp) and isinstance(t.op, ast.Or))
-    nested = [g for g in inner if any(any(x is g for x in ast.walk(o)) for o in outer)]
-    guard(rep, prog, rule, cp, "release rows without a position", nested, "no guard `(X or Y missing) and (lon or lat missing)` that stops the run")
+    ok_pos, where = position_guard(cp)
+    rep.check(rule, cp.qual, "fault class: release rows without a position", ok_pos, what_bad="no guard stops the run exactly when (X or Y missing) and (lon or lat missing)", what_ok=f"guarded at line {where}" if where else "", loc=cp.loc())
     called = any(isinstance(n, ast.Call) and unparse(n.func) == "self.clean_position" for n in walk_no_nested(rl.node))
     rep.check(rule, rl.qual, "clean_position is called by the constructor", called, what_bad="the position guard is never executed at start-up", what_ok="called", loc=rl.loc())
     # (g) missing files
@@ -248,20 +285,25 @@ def fault_table(prog: Program, rep: Report) -> None:
     rep.check(rule, cf.qual, "fault class: unknown configuration version", okv, what_bad="the version dispatch has no final else-branch that stops", what_ok="else: critical + raise", loc=cf.loc())
     # (i) subgrid bounds
     gi = prog.role_func("grid", "__init__")
-    def subgrid_pred(t):
-        s = unparse(t)
-        return "limits[0] < limits[1]" in s and "limits[2] < limits[3]" in s
-    sg = find_ifs(gi, subgrid_pred)
-    guard(rep, prog, rule, gi, "illegal subgrid", sg, "no sanity check of the subgrid limits")
-    for g in sg:
-        chains = [n for n in ast.walk(g.test) if isinstance(n, ast.Compare) and len(n.ops) == 3]
-        okc = len(chains) == 2
-        for c, (lo, hi, mx) in zip(chains, (("limits[0]", "limits[1]", "imax0 - 1"), ("limits[2]", "limits[3]", "jmax0 - 1"))):
-            parts = [unparse(c.left)] + [unparse(x) for x in c.comparators]
-            ops = [type(o).__name__ for o in c.ops]
-            okc = okc and parts == ["1", lo, hi, mx] and ops == ["LtE", "Lt", "LtE"]
-        neg = isinstance(g.test, ast.BoolOp) and isinstance(g.test.op, ast.Or) and all(isinstance(v, ast.UnaryOp) and isinstance(v.op, ast.Not) for v in g.test.values)
-        rep.check(rule, gi.qual, "subgrid test: not (1 <= i0 < i1 <= imax-1) or not (1 <= j0 < j1 <= jmax-1)", okc and neg, what_bad=f"test is `{short(g.test, 120)}`: every legal subgrid lies strictly inside the rho grid with at least one cell", what_ok="both axes, interior cells only", loc=gi.loc(g))
+    def chain_atom(n):
+        """1 <= limits[0] < limits[1] <= imax0 - 1 -> "A"; the j-chain -> "B" (split chains are and-ed leaves)."""
+        if isinstance(n, ast.Compare):
+            parts = [unparse(n.left)] + [unparse(x) for x in n.comparators]
+            ops = [type(o).__name__ for o in n.ops]
+            if parts == ["1", "limits[0]", "limits[1]", "imax0 - 1"] and ops == ["LtE", "Lt", "LtE"]:
+                return "A"
+            if parts == ["1", "limits[2]", "limits[3]", "jmax0 - 1"] and ops == ["LtE", "Lt", "LtE"]:
+                return "B"
+        return None
+
+    sg = []
+    for g in [n for n in walk_no_nested(gi.node) if isinstance(n, ast.If) and "limits[0]" in unparse(n.test) and "limits[2]" in unparse(n.test)]:
+        tb = bool_table(expand_locals(g.test, gi.node), chain_atom)
+        okc = tb is not None and tb[0] == ["A", "B"] and all(val == (not (asg[0] and asg[1])) for asg, val in tb[1].items())
+        rep.check(rule, gi.qual, "subgrid test is true exactly when not (1 <= i0 < i1 <= imax-1 and 1 <= j0 < j1 <= jmax-1)", okc, what_bad=f"test is `{short(g.test, 120)}`: every legal subgrid lies strictly inside the rho grid with at least one cell on both axes", what_ok="both axes, interior cells only", loc=gi.loc(g))
+        if okc:
+            sg.append(g)
+    guard(rep, prog, rule, gi, "illegal subgrid", sg, "no sanity check of the subgrid limits that stops the run")
     shp = [n for n in walk_no_nested(gi.node) if isinstance(n, ast.Assign) and unparse(n.targets[0]) in ("(jmax0, imax0)", "jmax0, imax0")]
     rep.check(rule, gi.qual, "jmax0, imax0 = shape of h (y first)", len(shp) == 1, what_bad="grid extent unpacked in the wrong order", what_ok="ok", loc=gi.loc())
 
